@@ -72,7 +72,13 @@ def r_scalar_nan_both(rule, root=None):
             l = A.strip(leaf)
             if l.get("k") != "Tuple" or len(l["elems"]) != 2 or str(A.ftxt(l["elems"][1])) != "Choice::Both":
                 continue
-            for v, vc in A.value_cases(l["elems"][0]):
+            first = A.strip(l["elems"][0])
+            if A.ident(first):
+                # `let value = if .. { NAN } else { other }; (value, Choice::Both)`
+                lets_ = [x for x in A.find(fn["body"], "Let") if A.binding_name(x["pat"]) == A.ident(first) and x.get("init") is not None]
+                if len(lets_) == 1:
+                    first = lets_[0]["init"]
+            for v, vc in A.value_cases(first):
                 if "NAN" in str(A.ftxt(v)).upper():
                     found = True
                     tests = sorted(x for c in vc for x in _disjuncts(c))
